@@ -1,3 +1,335 @@
-(* Property C02 - only statements closed by `exact`, each followed by Print Assumptions. *)
-From Coq Require Import ZArith List.
-From Hash Require Import HashBase HashSpec HashModel HashProofs HashRefine.
+(* Property C02 - "Hash containers behave as insertion-ordered unique-key tables".
+   Only statements closed by `exact`, each followed by Print Assumptions, plus non-vacuity Examples.
+
+   Every theorem is about the Model (HashModel.v: HashMap / HashSet / PoolMap selected by [kind])
+   over an ARBITRARY key type K with a decidable equality [keqb], an ARBITRARY hash function
+   [hash : K -> Z] and arbitrary capacities - "all keys collide in one bucket" (hash := fun _ => 0)
+   and "capacity 1" are instances (see the Examples at the end).
+
+   Clause of the property                                   -> theorem
+   -------------------------------------------------------------------------------------------------
+   for every operation sequence, every table size, agree with
+   a reference insertion-ordered map on lookups, size,
+   emptiness, iteration order, equality comparison and
+   returned iterators (all 22 operations, several variables) -> C02_refines_ordered_map (whole histories,
+                                                                results and observations of every variable
+                                                                after every operation), C02_step_refines
+   bucket-chain + order-list invariant: established by the
+   constructors, preserved by every operation, holds in
+   every reachable state                                     -> C02_invariant_init, C02_invariant_step,
+                                                                C02_invariant_reachable
+   lookups (find / contains) walk one chain only and still
+   answer like the reference                                 -> C02_chain_lookup_iff_listed, C02_find_refines,
+                                                                C02_contains_refines
+   size / emptiness / iteration order                        -> C02_obs_refines
+   equality comparison (order- and value-sensitive)          -> C02_eq_refines
+   append / prepend / positional insert, returned iterator   -> C02_insert_refines, C02_insert_new_key
+   remove by iterator (returned iterator), removeFront/Back  -> C02_remove_at_refines, C02_iter_at_refines
+   remove by key                                             -> C02_remove_key_refines
+   clear                                                     -> C02_clear_refines
+   copy construction / assignment (re-append into an empty
+   table of another capacity yields the same sequence)       -> C02_copy_refines
+   bulk append / remove                                      -> C02_append_all_refines, C02_remove_all_refines
+   swap, ==, front/back, setValue through the iterator       -> inside C02_step_refines
+   inserting a present key keeps its position and updates
+   the value (HashMap)                                       -> C02_insert_present_hashmap
+   ... or leaves the entry untouched (HashSet, PoolMap)      -> C02_insert_present_set_pool_untouched
+   the reference object is a unique-key table                -> C02_spec_unique_keys
+   node recycling (free-item list, blocks of 4): live items
+   and free list partition the allocated items, always       -> C02_pool_step, C02_pool_reachable
+
+   Validated by correspondence only (checks/C02.py): that the Model mirrors the C++ code (results,
+   public state, bucket index and chain order of every key, slot of every item, free list, number of
+   blocks, compared after every operation); the concrete hash functions hash_int / hash_str.
+   Preconditions of the API (position <= size, rank < size, non-empty for front/back/removeFront/
+   removeBack, existing variable, operation defined for the container kind) are modelled as RPre: the
+   call is not made.  x = x is modelled with the self-assignment guard (see level_note of the check). *)
+From Coq Require Import ZArith List Bool Lia.
+From Common Require Import ListAux.
+From Hash Require Import HashBase HashSpec HashModel HashProofs HashRefine HashExtra HashPool.
+Import ListNotations.
+Local Open Scope Z_scope.
+
+Theorem C02_invariant_init :
+  forall (K : Type) (hash : K -> Z) (caps : list Z),
+  Forall (fun c : Z => 0 <= c) caps -> state_ok K hash (start K caps).
+Proof. exact start_ok. Qed.
+Print Assumptions C02_invariant_init.
+
+Theorem C02_invariant_step :
+  forall (K : Type) (keqb : K -> K -> bool) (hash : K -> Z),
+  (forall a b : K, keqb a b = true <-> a = b) ->
+  forall (kd : kind) (st : list (table K)) (o : op K),
+  state_ok K hash st -> state_ok K hash (fst (step keqb hash kd st o)).
+Proof. exact invariant_step. Qed.
+Print Assumptions C02_invariant_step.
+
+Theorem C02_invariant_reachable :
+  forall (K : Type) (keqb : K -> K -> bool) (hash : K -> Z),
+  (forall a b : K, keqb a b = true <-> a = b) ->
+  forall (kd : kind) (caps : list Z) (ops : list (op K)),
+  Forall (fun c : Z => 0 <= c) caps ->
+  state_ok K hash (states K keqb hash kd (start K caps) ops).
+Proof. exact invariant_reachable. Qed.
+Print Assumptions C02_invariant_reachable.
+
+Theorem C02_step_refines :
+  forall (K : Type) (keqb : K -> K -> bool) (hash : K -> Z),
+  (forall a b : K, keqb a b = true <-> a = b) ->
+  forall (kd : kind) (st : list (table K)) (o : op K),
+  state_ok K hash st ->
+  state_ok K hash (fst (step keqb hash kd st o)) /\
+  spec_step keqb kd (abs_st K st) o = (abs_st K (fst (step keqb hash kd st o)), snd (step keqb hash kd st o)).
+Proof. exact step_refines. Qed.
+Print Assumptions C02_step_refines.
+
+(* the main theorem: for every key type, hash function, container kind, list of capacities and
+   history, the model produces exactly the results and observations of the reference ordered maps *)
+Theorem C02_refines_ordered_map :
+  forall (K : Type) (keqb : K -> K -> bool) (hash : K -> Z),
+  (forall a b : K, keqb a b = true <-> a = b) ->
+  forall (kd : kind) (caps : list Z) (ops : list (op K)),
+  Forall (fun c : Z => 0 <= c) caps ->
+  run keqb hash kd (start K caps) ops = spec_run keqb kd (map (fun _ : Z => nil) caps) ops.
+Proof. exact refines_ordered_map. Qed.
+Print Assumptions C02_refines_ordered_map.
+
+Theorem C02_chain_lookup_iff_listed :
+  forall (K : Type) (keqb : K -> K -> bool) (hash : K -> Z),
+  (forall a b : K, keqb a b = true <-> a = b) ->
+  forall (t : table K) (k : K),
+  chains_ok K hash t -> chain_has keqb hash t k = true <-> In k (keys K t).
+Proof. exact chain_has_in. Qed.
+Print Assumptions C02_chain_lookup_iff_listed.
+
+Theorem C02_find_refines :
+  forall (K : Type) (keqb : K -> K -> bool) (hash : K -> Z),
+  (forall a b : K, keqb a b = true <-> a = b) ->
+  forall (t : table K) (k : K),
+  chains_ok K hash t -> it_of (find_node keqb hash t k) = s_find keqb (abs K t) k.
+Proof. exact find_refines. Qed.
+Print Assumptions C02_find_refines.
+
+Theorem C02_contains_refines :
+  forall (K : Type) (keqb : K -> K -> bool) (hash : K -> Z),
+  (forall a b : K, keqb a b = true <-> a = b) ->
+  forall (t : table K) (k : K),
+  chains_ok K hash t ->
+  match find_node keqb hash t k with Some _ => true | None => false end = s_has keqb (abs K t) k.
+Proof. exact contains_refines. Qed.
+Print Assumptions C02_contains_refines.
+
+Theorem C02_obs_refines :
+  forall (K : Type) (hash : K -> Z) (t : table K), chains_ok K hash t -> m_obs t = s_obs (abs K t).
+Proof. exact obs_refines. Qed.
+Print Assumptions C02_obs_refines.
+
+Theorem C02_eq_refines :
+  forall (K : Type) (keqb : K -> K -> bool) (hash : K -> Z) (kd : kind) (a b : table K),
+  chains_ok K hash a -> chains_ok K hash b ->
+  eq_tables keqb kd a b = s_eq keqb kd (abs K a) (abs K b).
+Proof. exact eq_refines. Qed.
+Print Assumptions C02_eq_refines.
+
+Theorem C02_insert_refines :
+  forall (K : Type) (keqb : K -> K -> bool) (hash : K -> Z),
+  (forall a b : K, keqb a b = true <-> a = b) ->
+  forall (kd : kind) (t : table K) (pos : nat) (k : K) (v : Z),
+  chains_ok K hash t -> (pos <= length (order t))%nat ->
+  chains_ok K hash (fst (insert keqb hash kd t pos k v)) /\
+  abs K (fst (insert keqb hash kd t pos k v)) = s_put keqb kd (abs K t) pos k v /\
+  snd (insert keqb hash kd t pos k v) = s_find keqb (abs K (fst (insert keqb hash kd t pos k v))) k.
+Proof. exact insert_refines. Qed.
+Print Assumptions C02_insert_refines.
+
+Theorem C02_insert_new_key :
+  forall (K : Type) (keqb : K -> K -> bool) (hash : K -> Z),
+  (forall a b : K, keqb a b = true <-> a = b) ->
+  forall (kd : kind) (t : table K) (pos : nat) (k : K) (v : Z),
+  chains_ok K hash t -> ~ In k (map fst (abs K t)) -> (pos <= length (abs K t))%nat ->
+  abs K (fst (insert keqb hash kd t pos k v)) = insert_at pos (k, ins_value kd v) (abs K t) /\
+  snd (insert keqb hash kd t pos k v) = Some (pos, k, ins_value kd v) /\
+  size (fst (insert keqb hash kd t pos k v)) = size t + 1.
+Proof. exact insert_new. Qed.
+Print Assumptions C02_insert_new_key.
+
+(* HashMap: same rank, every other entry identical ([upd r]), value replaced, iterator to that rank,
+   size / chains / free list unchanged - for every position argument *)
+Theorem C02_insert_present_hashmap :
+  forall (K : Type) (keqb : K -> K -> bool) (hash : K -> Z),
+  (forall a b : K, keqb a b = true <-> a = b) ->
+  forall (t : table K) (pos : nat) (k : K) (v : Z) (r : nat) (v0 : Z),
+  chains_ok K hash t -> nth_error (abs K t) r = Some (k, v0) ->
+  abs K (fst (insert keqb hash KMap t pos k v)) = upd r (k, v) (abs K t) /\
+  snd (insert keqb hash KMap t pos k v) = Some (r, k, v) /\
+  size (fst (insert keqb hash KMap t pos k v)) = size t /\
+  buckets (fst (insert keqb hash KMap t pos k v)) = buckets t /\
+  free (fst (insert keqb hash KMap t pos k v)) = free t /\
+  chains_ok K hash (fst (insert keqb hash KMap t pos k v)).
+Proof. exact insert_present_map. Qed.
+Print Assumptions C02_insert_present_hashmap.
+
+(* HashSet, PoolMap: the table is returned exactly as it was, iterator to the existing entry *)
+Theorem C02_insert_present_set_pool_untouched :
+  forall (K : Type) (keqb : K -> K -> bool) (hash : K -> Z),
+  (forall a b : K, keqb a b = true <-> a = b) ->
+  forall (kd : kind) (t : table K) (pos : nat) (k : K) (v : Z) (r : nat) (v0 : Z),
+  kd <> KMap -> chains_ok K hash t -> nth_error (abs K t) r = Some (k, v0) ->
+  insert keqb hash kd t pos k v = (t, Some (r, k, v0)).
+Proof. exact insert_present_untouched. Qed.
+Print Assumptions C02_insert_present_set_pool_untouched.
+
+Theorem C02_remove_at_refines :
+  forall (K : Type) (keqb : K -> K -> bool) (hash : K -> Z),
+  (forall a b : K, keqb a b = true <-> a = b) ->
+  forall (t : table K) (r : nat),
+  chains_ok K hash t -> (r < length (order t))%nat ->
+  chains_ok K hash (remove_at keqb hash t r) /\ abs K (remove_at keqb hash t r) = remove_nth r (abs K t).
+Proof. exact remove_at_refines. Qed.
+Print Assumptions C02_remove_at_refines.
+
+Theorem C02_iter_at_refines :
+  forall (K : Type) (t : table K) (r : nat), iter_at t r = s_iter (abs K t) r.
+Proof. exact iter_at_refines. Qed.
+Print Assumptions C02_iter_at_refines.
+
+Theorem C02_remove_key_refines :
+  forall (K : Type) (keqb : K -> K -> bool) (hash : K -> Z),
+  (forall a b : K, keqb a b = true <-> a = b) ->
+  forall (t : table K) (k : K),
+  chains_ok K hash t ->
+  chains_ok K hash (remove_key keqb hash t k) /\ abs K (remove_key keqb hash t k) = s_remove_key keqb (abs K t) k.
+Proof. exact remove_key_refines. Qed.
+Print Assumptions C02_remove_key_refines.
+
+Theorem C02_clear_refines :
+  forall (K : Type) (hash : K -> Z) (t : table K),
+  chains_ok K hash t -> chains_ok K hash (clear t) /\ abs K (clear t) = [].
+Proof. exact clear_refines. Qed.
+Print Assumptions C02_clear_refines.
+
+Theorem C02_copy_refines :
+  forall (K : Type) (keqb : K -> K -> bool) (hash : K -> Z),
+  (forall a b : K, keqb a b = true <-> a = b) ->
+  forall (kd : kind) (t b : table K),
+  kd <> KPool -> chains_ok K hash t -> abs K t = [] -> chains_ok K hash b ->
+  chains_ok K hash (append_all keqb hash kd t (order b)) /\ abs K (append_all keqb hash kd t (order b)) = abs K b.
+Proof. exact copy_refines. Qed.
+Print Assumptions C02_copy_refines.
+
+Theorem C02_append_all_refines :
+  forall (K : Type) (keqb : K -> K -> bool) (hash : K -> Z),
+  (forall a b : K, keqb a b = true <-> a = b) ->
+  forall (kd : kind) (l : list (node K)) (t : table K),
+  chains_ok K hash t ->
+  chains_ok K hash (append_all keqb hash kd t l) /\
+  abs K (append_all keqb hash kd t l) =
+  fold_left (fun (m : omap K) (e : K * Z) => s_put keqb kd m (length m) (fst e) (snd e)) (map (ent K) l) (abs K t).
+Proof. exact append_all_refines. Qed.
+Print Assumptions C02_append_all_refines.
+
+Theorem C02_remove_all_refines :
+  forall (K : Type) (keqb : K -> K -> bool) (hash : K -> Z),
+  (forall a b : K, keqb a b = true <-> a = b) ->
+  forall (l : list (node K)) (t : table K),
+  chains_ok K hash t ->
+  chains_ok K hash (remove_all keqb hash t l) /\
+  abs K (remove_all keqb hash t l) =
+  fold_left (fun (m : omap K) (e : K * Z) => s_remove_key keqb m (fst e)) (map (ent K) l) (abs K t).
+Proof. exact remove_all_refines. Qed.
+Print Assumptions C02_remove_all_refines.
+
+Theorem C02_spec_unique_keys :
+  forall (K : Type) (keqb : K -> K -> bool),
+  (forall a b : K, keqb a b = true <-> a = b) ->
+  forall (kd : kind) (caps : list Z) (ops : list (op K)),
+  Forall (fun c : Z => 0 <= c) caps ->
+  Forall (fun l : list (K * Z) => NoDup (map fst l)) (spec_states K keqb kd (map (fun _ : Z => nil) caps) ops).
+Proof. exact spec_unique_keys. Qed.
+Print Assumptions C02_spec_unique_keys.
+
+Theorem C02_pool_step :
+  forall (K : Type) (keqb : K -> K -> bool) (hash : K -> Z) (kd : kind) (st : list (table K)) (o : op K),
+  Forall (pool_ok K) st -> Forall (pool_ok K) (fst (step keqb hash kd st o)).
+Proof. exact pool_step. Qed.
+Print Assumptions C02_pool_step.
+
+Theorem C02_pool_reachable :
+  forall (K : Type) (keqb : K -> K -> bool) (hash : K -> Z) (kd : kind) (caps : list Z) (ops : list (op K)),
+  Forall (pool_ok K) (states K keqb hash kd (start K caps) ops).
+Proof. exact pool_reachable. Qed.
+Print Assumptions C02_pool_reachable.
+
+(* ---- non-vacuity: integer keys, ALL keys in one bucket (hash = 0), capacities 7 / 0 (-> 1) / 2 ----- *)
+Definition ex_hash (k : Z) : Z := 0.
+Definition ex_caps : list Z := [7; 0; 2].
+Definition ex_ops : list (op Z) :=
+  [OAppend 0 10 1; OAppend 0 20 2; OPrepend 0 30 3; OInsert 0 1 40 4; OAppend 0 50 5;   (* 30 40 10 20 50 *)
+   ORemoveKey 0 10;                       (* middle of the chain, middle of the list *)
+   OInsert 0 0 20 9;                      (* present key, other position: keeps rank 2 *)
+   OAppend 1 20 9; OAppend 1 30 3; OSwap 0 1; OEq 0 1; OCopy 2 1; OEq 2 1; ORemoveAt 1 1; ORemoveBack 1;
+   OAssign 0 1; OClear 2; OAppend 2 7 7; OFind 1 30; OFind 1 10].
+Definition ex_states (kd : kind) : list (table Z) := states Z Z.eqb ex_hash kd (start Z ex_caps) ex_ops.
+Definition ex_t : table Z := nth 0 (states Z Z.eqb ex_hash KMap (start Z ex_caps) (firstn 6 ex_ops)) (new_table 1).
+
+Example ex_caps_ok : Forall (fun c : Z => 0 <= c) ex_caps.
+Proof. repeat constructor; discriminate. Qed.
+
+Example ex_keqb_spec : forall a b : Z, Z.eqb a b = true <-> a = b.
+Proof. exact Z.eqb_eq. Qed.
+
+(* the hypotheses of the theorems are met by a state with a chain of four colliding keys *)
+Example ex_chain : buckets ex_t = [[50; 40; 30; 20]; []; []; []; []; []; []] /\ entries ex_t = [(30, 3); (40, 4); (20, 2); (50, 5)].
+Proof. vm_compute. split; reflexivity. Qed.
+
+Example ex_t_ok : chains_ok Z ex_hash ex_t.
+Proof.
+  exact (proj1 (Forall_forall _ _)
+           (C02_invariant_reachable Z Z.eqb ex_hash ex_keqb_spec KMap ex_caps (firstn 6 ex_ops) ex_caps_ok)
+           ex_t (or_introl eq_refl)).
+Qed.
+
+Example ex_run_map : run Z.eqb ex_hash KMap (start Z ex_caps) ex_ops = spec_run Z.eqb KMap [[]; []; []] ex_ops.
+Proof. vm_compute. reflexivity. Qed.
+
+Example ex_run_set : run Z.eqb ex_hash KSet (start Z ex_caps) ex_ops = spec_run Z.eqb KSet [[]; []; []] ex_ops.
+Proof. vm_compute. reflexivity. Qed.
+
+Example ex_run_nontrivial :
+  map fst (spec_run Z.eqb KMap [[]; []; []] ex_ops) =
+  [RVal 1; RVal 2; RVal 3; RIter (Some (1%nat, 40, 4)); RVal 5; RNone; RIter (Some (2%nat, 20, 9));
+   RVal 9; RVal 3; RNone; RBool false; RNone; RBool true; RIter (Some (1%nat, 20, 9)); RIter None;
+   RNone; RNone; RVal 7; RIter (Some (0%nat, 30, 3)); RIter None].
+Proof. vm_compute. reflexivity. Qed.
+
+(* present key: HashMap keeps rank 2 and replaces the value; HashSet / PoolMap return the table itself *)
+Example ex_present_map :
+  nth_error (abs Z ex_t) 2 = Some (20, 2) /\
+  abs Z (fst (insert Z.eqb ex_hash KMap ex_t 0 20 9)) = [(30, 3); (40, 4); (20, 9); (50, 5)] /\
+  snd (insert Z.eqb ex_hash KMap ex_t 0 20 9) = Some (2%nat, 20, 9).
+Proof. vm_compute. repeat split; reflexivity. Qed.
+
+Example ex_present_pool : insert Z.eqb ex_hash KPool ex_t 0 20 9 = (ex_t, Some (2%nat, 20, 2)).
+Proof. vm_compute. reflexivity. Qed.
+
+Example ex_new_key : abs Z (fst (insert Z.eqb ex_hash KPool ex_t 1 60 9)) = [(30, 3); (60, 77); (40, 4); (20, 2); (50, 5)].
+Proof. vm_compute. reflexivity. Qed.
+
+(* removal from the middle of a four-element chain *)
+Example ex_remove_mid : buckets (remove_key Z.eqb ex_hash ex_t 40) = [[50; 30; 20]; []; []; []; []; []; []]
+                        /\ entries (remove_key Z.eqb ex_hash ex_t 40) = [(30, 3); (20, 2); (50, 5)].
+Proof. vm_compute. split; reflexivity. Qed.
+
+(* order-sensitive equality; copy into capacity 500 is equal *)
+Example ex_eq_order :
+  s_eq Z.eqb KMap [(1, 1); (2, 2)] [(2, 2); (1, 1)] = false /\ s_eq Z.eqb KMap [(1, 1); (2, 2)] [(1, 1); (2, 2)] = true /\
+  s_eq Z.eqb KMap [(1, 1); (2, 2)] [(1, 1); (2, 3)] = false /\ s_eq Z.eqb KSet [(1, 1); (2, 2)] [(1, 1); (2, 3)] = true.
+Proof. vm_compute. repeat split; reflexivity. Qed.
+
+(* node recycling: after the history, live slots and free list partition the 4 * nblocks items of each table *)
+Example ex_pool :
+  map (fun t => (nblocks t, map nslot (order t), free t)) (ex_states KMap) =
+  [(1, [(0, 3); (0, 0)], [(0, 2); (0, 1)]);
+   (2, [(0, 2); (0, 3)], [(1, 0); (0, 1); (0, 0); (1, 3); (1, 2); (1, 1)]);
+   (1, [(0, 1)], [(0, 2); (0, 3); (0, 0)])].
+Proof. vm_compute. reflexivity. Qed.
